@@ -52,6 +52,8 @@ def cases(draw, profile=None):
     c["extreme_days"] = draw(st.sampled_from([None, None, None, [3, "hot"], [5, "cold"], [6, "hot"], [4, "both"]]))
     if c["step"] is not None:
         c["noise"] = draw(st.sampled_from([0.002, 0.005, 0.02]))
+    # a net-metered site that exports more than it consumes on every day: the whole usage series lies below zero (or straddles it)
+    c["net_offset"] = draw(st.sampled_from([None, None, None, None, None, 1.3, 2.5, 0.6]))
     return c
 
 
@@ -80,6 +82,8 @@ def build(c):
         k = int(frac * len(df))
         df.iloc[k:, df.columns.get_loc("observed")] += rel * c["base"]
     df["observed"] = np.abs(df["observed"]) + 1e-3
+    if c.get("net_offset"):
+        df["observed"] = df["observed"] - c["net_offset"] * float(df["observed"].max())
     return df
 
 
@@ -112,7 +116,7 @@ def judge(c, rec):
     dd = dd[ok_rows]
     routes = rc.route(dd.index, list(doc["submodels"]), doc["settings"])
     K = prof
-    cls = ["profile=" + prof, "shape=" + c["shape"], "weather=" + c["weather"]]
+    cls = ["profile=" + prof, "shape=" + c["shape"], "weather=" + c["weather"], "usage-sign=" + ("positive" if not c.get("net_offset") else "negative" if c["net_offset"] > 1 else "mixed")]
     kmin = doc["settings"]["segment_minimum_count"]
     sloped = False
     onbound = False
